@@ -82,6 +82,39 @@ def lean_build(ctx, targets=()):
         lock.close()
 
 
+def tie_b_tables(ctx, theorems):
+    """Tie B for constant tables: regenerate lean/Generated/Tables.lean from /repo's current source and let the kernel decide
+    `generated = model` (lean/Generated/TableObligations.lean). Returns the list of obligations that no longer check."""
+    import c2lean_tables
+    failed = []
+    try:
+        c2lean_tables.emit(os.path.join(LEAN, "Generated", "Tables.lean"))
+    except Exception as e:
+        return [("translator", "tools/c2lean_tables.py could not extract a table from the current source: %s" % e)]
+    import fcntl
+    with open(os.path.join(LEAN, ".lake-lock"), "w") as lk:
+        fcntl.flock(lk, fcntl.LOCK_EX)
+        p = subprocess.run(["lake", "build", "+Generated.TableObligations"], cwd=LEAN, capture_output=True, text=True)
+    if p.returncode != 0:
+        log = p.stdout + p.stderr
+        src = open(os.path.join(LEAN, "Generated", "TableObligations.lean")).read().split("\n")
+        for m in re.finditer(r"TableObligations\.lean:(\d+):\d+:", log):
+            ln = int(m.group(1))
+            name = None
+            for k in range(ln - 1, -1, -1):
+                mm = re.match(r"theorem (\w+)", src[k]) if k < len(src) else None
+                if mm:
+                    name = mm.group(1); break
+            if name and name not in [f[0] for f in failed]:
+                failed.append((name, log[max(0, m.start() - 100):m.start() + 600]))
+        if not failed:
+            failed.append(("Generated.TableObligations", log[-1500:]))
+    for t in theorems:
+        ctx.obligations.append({"theorem": "Sodium.Generated." + t, "axioms": ["(decide over the table regenerated from the source)"]})
+    ctx.discharged = len(ctx.obligations) - len([f for f in failed if f[0] in theorems])
+    return [f for f in failed if f[0] in theorems or f[0] in ("translator", "Generated.TableObligations")]
+
+
 def strip_comments(src):
     # remove /- ... -/ (nested not handled beyond one level, fine for our sources) and -- comments
     out = []
